@@ -44,6 +44,13 @@ var plainProfile = func() Profile {
 	return p
 }()
 
+// reorderProfile: Reorder'd injectors and wrappers; no interface matching (Reorder only considers exact types)
+var reorderProfile = func() Profile {
+	p := defaultProfile
+	p.PReorder, p.PIface, p.PCacheable, p.PMemoize = 0.3, 0, 0.1, 0.03
+	return p
+}()
+
 // memoProfile: many memoized and fallible injectors (C07, C09)
 var memoProfile = func() Profile {
 	p := defaultProfile
@@ -273,6 +280,9 @@ func genCase(rng *rand.Rand, n int, seed int64, pf Profile) *CaseDesc {
 		}
 		if p.Kind != "lit" && chance(rng, pf.PRefl) {
 			p.Refl = true
+		}
+		if p.Kind != "lit" && !p.Cacheable && chance(rng, pf.PReorder) {
+			p.Reorder = true
 		}
 		if p.Kind != "lit" && chance(rng, pf.PUnused) {
 			p.In = append(p.In, cUnus)
